@@ -494,8 +494,82 @@ class DataAdapter:
                 ("angular_distance", lambda o: o.grid.angular_distance())]
 
 
+class SurrAdapter:
+    """Surrogates: the embedding and the memoised twins are derived from the
+    data by twin_surrogates(); normalisation (directly or inside
+    original_distribution / test_threshold_significance) replaces the data.
+    Every query below draws first, so its value is a function of the current
+    data and the draw parameters only."""
+    name = "Surrogates"
+    PARS = [(1, 1), (2, 1), (2, 2), (3, 1)]
+
+    def cls(self):
+        from pyunicorn.timeseries.surrogates import Surrogates
+        return Surrogates
+
+    def make(self, rng):
+        N, T = rng.randint(1, 3), rng.randint(24, 40)
+        g = np.random.default_rng(rng.randrange(2 ** 32))
+        x = np.round(g.standard_normal((N, T)).cumsum(axis=1), 1) \
+            + rng.choice([0.0, 5.0])
+        return {"x": x, "normalized": False}
+
+    def build(self, spec):
+        o = self.cls()(spec["x"].copy(), silence_level=3)
+        if spec["normalized"]:
+            o.normalize_original_data()
+        return o
+
+    @staticmethod
+    def _norm(s):
+        s["normalized"] = True      # the twin normalises with the library
+
+    def mutators(self):
+        def norm(o, s, rng):
+            o.normalize_original_data()
+            self._norm(s)
+
+        def dist(o, s, rng):
+            self._norm(s)
+            o.original_distribution(lambda a, b: np.corrcoef(a), n_bins=5)
+
+        def draw(o, s, rng):
+            d, tau = rng.choice(self.PARS)
+            np.random.seed(rng.randrange(2 ** 31))
+            o.twin_surrogates(d, tau, rng.choice([0.5, 1.0]), min_dist=3)
+
+        def setemb(o, s, rng):
+            d, tau = rng.choice(self.PARS)
+            o.embedding = o.embed_time_series_array(o.original_data, d, tau)
+        return [("normalize_original_data", norm),
+                ("original_distribution", dist), ("twin_surrogates", draw),
+                ("embedding.setter", setemb)]
+
+    def queries(self, obj):
+        def drawq(d, tau, what):
+            def q(o):
+                np.random.seed(12345)
+                sur = o.twin_surrogates(d, tau, 1.0, min_dist=3)
+                if what == "embedding":
+                    return np.asarray(o.embedding).copy()
+                if what == "twins":
+                    tw = o.twins(1.0, min_dist=3)
+                    return np.array([([len(t)] + sorted(t)[:3] + [-1] * 3)[:4]
+                                     for t in tw[0]], float)
+                return np.asarray(sur).copy()
+            return q
+        qs = []
+        for d, tau in self.PARS[:3]:
+            for what in ("embedding", "twins", "surrogates"):
+                qs.append((f"{what} after twin_surrogates({d},{tau})",
+                           drawq(d, tau, what)))
+        qs.append(("original_data_fft", lambda o: np.abs(
+            o.original_data_fft())))
+        return qs
+
+
 ADAPTERS = [NetAdapter, GeoAdapter, ClimAdapter, TsonisAdapter, RPAdapter,
-            RNAdapter, JRNAdapter, ResAdapter, DataAdapter]
+            RNAdapter, JRNAdapter, ResAdapter, DataAdapter, SurrAdapter]
 
 
 # --------------------------------------------------------------------------
